@@ -87,7 +87,8 @@ func init() {
 			"value; placeholder expressions (NewBindVar) are built only on paths with bindCtx == nil, resolve-only mode, or a declined substitution; (B3) every function of root/server/driver that receives bindings " +
 			"(map[string]*BindVariable, map[string]sqlparser.Expr, driver argument slices, *mysql.PrepareData) passes them or their conversion to every callee that takes bindings: SQL EXECUTE, the bindings API and COM_STMT_EXECUTE reach the same " +
 			"planbuilder substitution with nothing dropped. " +
-			"(K1) the prepared cache is keyed by the exact text: every store, lookup and delete on a session map from string to parsed statement uses a string parameter of the enclosing function unchanged as the key (the same map serves named statements and statements prepared by their full text, so a folded key lets a bound statement run the tree cached for another text).",
+			"(K1) the prepared cache is keyed by the exact text: every store, lookup and delete on a session map from string to parsed statement uses a string parameter of the enclosing function unchanged as the key (the same map serves named statements and statements prepared by their full text, so a folded key lets a bound statement run the tree cached for another text). " +
+			"(K2) what is cached was parsed as the session would parse it: every statement stored in the session's prepared cache comes from a parser entry point that applies the session's SQL mode (a ParserOptions argument taken from SqlMode.ParserOptions(), or the context-taking Parse), never from an option-less parse; a statement received as a parameter is the caller's obligation.",
 		NotCovered: "equality of results and effects between the bound and the inlined execution (depends on the values: typing of a bound literal vs. the same literal in text, e.g. what vitess' ExprFromValue produces for a wire type, " +
 			"is outside the analysed module); stores into the cached tree made inside vitess itself, through reflection, through sub-objects copied from the cached tree into a freshly allocated node, or by " +
 			"packages outside the four listed (sql/procedures rewrites procedure-body statements, sql/stats freshly parsed column types: listed as information); idempotence of the named A1 exceptions is argued by reading, not decided; " +
@@ -97,6 +98,7 @@ func init() {
 			runC12Ast(c, c12RepoAst(), map[string]int{"C12-A1": 10, "C12-A2": 0})
 			runC12Bind(c, c12RepoBind())
 			runC12Key(c, "sql", func(p *types.Package) bool { return p != nil && p.Path() == c12Vitess+"vt/sqlparser" }, "Statement", []string{"sql"}, 3)
+			runC12CacheParse(c, []string{""}, "sql", 2)
 		},
 		Fixture: func(c *Ctx, fx *Prog) {
 			astCfg := func(rel string) *c12AstCfg {
